@@ -61,6 +61,8 @@ def records_for(prop, modname='props.cxx'):
     except CheckerError as e:
         # the deductive part cannot analyse this tree: reported as a checker error, but the bounded part of the property still runs (a violation it finds takes precedence)
         return [], [f'CHECKER-ERROR CheckerError: {e}'], dict(cxx_error=str(e))
+    except Exception as e:       # noqa  an internal error of the verifier on code outside its subset is a checker error too, never a verdict about the property
+        return [], [f'CHECKER-ERROR internal ({type(e).__name__}): {e}'], dict(cxx_error=f'{type(e).__name__}: {e}')
     n = len([r for r in recs if prop in r['props']])
     if n == 0:
         raise CheckerError(f'no obligations generated for {prop}')
